@@ -234,6 +234,65 @@ theorem gen_Sample_Metropolis_2D_eq (n : Nat) :
     (!gen_Sample_Metropolis_2D_unbounded n && !gen_Sample_Metropolis_2D_bounded n) = (metropolisGuard 4 n).stops := by
   unfold gen_Sample_Metropolis_2D_unbounded gen_Sample_Metropolis_2D_bounded metropolisGuard; gen_eq
 
+/-! ## Parameter guards added for audit defect 18 and the length-0 quantifier -/
+theorem gen_PDF_Uniform_eq (a b : Rat) : gen_PDF_Uniform a b = (intervalGuard a b).stops := by
+  unfold gen_PDF_Uniform intervalGuard; gen_eq
+theorem gen_CDF_Uniform_eq (a b : Rat) : gen_CDF_Uniform a b = (intervalGuard a b).stops := by
+  unfold gen_CDF_Uniform intervalGuard; gen_eq
+theorem gen_PDF_Gauss_eq (s : Rat) : gen_PDF_Gauss s = (positiveGuard s).stops := by
+  unfold gen_PDF_Gauss positiveGuard; gen_eq
+theorem gen_CDF_Gauss_eq (s : Rat) : gen_CDF_Gauss s = (positiveGuard s).stops := by
+  unfold gen_CDF_Gauss positiveGuard; gen_eq
+theorem gen_Quantile_Gauss_eq (p s : Rat) :
+    (gen_Quantile_Gauss s || (invErfGuard (2 * p - 1)).stops) = (quantileGaussGuard p s).stops := by
+  unfold gen_Quantile_Gauss quantileGaussGuard
+  by_cases h : s < 0 <;> simp [h, G.stops, stop]
+theorem gen_PDF_Gauss_2D_eq (sx sy : Rat) : gen_PDF_Gauss_2D sx sy = (gauss2DGuard sx sy).stops := by
+  unfold gen_PDF_Gauss_2D gauss2DGuard; gen_eq
+theorem gen_PDF_Chi_Square_eq (d : Rat) : gen_PDF_Chi_Square d = (poissonMeanGuard d).stops := by
+  unfold gen_PDF_Chi_Square poissonMeanGuard; gen_eq
+theorem gen_CDF_Chi_Square_eq (d : Rat) : gen_CDF_Chi_Square d = (poissonMeanGuard d).stops := by
+  unfold gen_CDF_Chi_Square poissonMeanGuard; gen_eq
+theorem gen_Log_Likelihood_Poisson_eq (a b : Rat) : gen_Log_Likelihood_Poisson a b = (likelihoodPoissonGuard a b).stops := by
+  unfold gen_Log_Likelihood_Poisson likelihoodPoissonGuard; gen_eq
+theorem gen_Sample_Uniform_eq (a b : Rat) : gen_Sample_Uniform a b = (weakIntervalGuard a b).stops := by
+  unfold gen_Sample_Uniform weakIntervalGuard; gen_eq
+theorem gen_Sample_Gauss_eq (s : Rat) : gen_Sample_Gauss s = (poissonMeanGuard s).stops := by
+  unfold gen_Sample_Gauss poissonMeanGuard; gen_eq
+theorem gen_Sample_Poisson_eq (m : Rat) : gen_Sample_Poisson m = (poissonMeanGuard m).stops := by
+  unfold gen_Sample_Poisson poissonMeanGuard; gen_eq
+theorem gen_Inv_GammaP_full_eq (p a : Rat) :
+    (gen_Inv_GammaP a || gen_Inv_GammaP_probability p) = (invGammaPFullGuard p a).stops := by
+  unfold gen_Inv_GammaP gen_Inv_GammaP_probability invGammaPFullGuard; gen_eq
+theorem gen_Inv_GammaQ_eq (q a : Rat) :
+    (gen_Inv_GammaQ_probability q || gen_Inv_GammaP a) = (invGammaPFullGuard (1 - q) a).stops := by
+  have e : (1 - q < 0 ∨ 1 - q > 1) ↔ (q < 0 ∨ q > 1) := by
+    constructor
+    · rintro (h | h)
+      · right; linarith
+      · left; linarith
+    · rintro (h | h)
+      · right; linarith
+      · left; linarith
+  unfold gen_Inv_GammaQ_probability gen_Inv_GammaP invGammaPFullGuard
+  rw [Bool.eq_iff_iff]
+  by_cases ha : a ≤ 0
+  · simp [ha, G.stops, stop]
+  · rw [if_neg ha]
+    by_cases hq : (q < 0 ∨ q > 1)
+    · rw [if_pos (e.mpr hq)]
+      simp only [G.stops, stop, Bool.or_eq_true, decide_eq_true_eq, iff_true]
+      exact Or.inl hq
+    · rw [if_neg (fun h => hq (e.mp h))]
+      simp only [G.stops, pass, Bool.or_eq_true, decide_eq_true_eq, Bool.false_eq_true, iff_false]
+      rintro (h | h)
+      · exact hq h
+      · exact ha h
+theorem gen_Locate_Closest_Location_eq (l : List Rat) :
+    (gen_Locate_Closest_Location_empty l.length || (closestGuard l).stops) = (closestAllGuard l).stops := by
+  unfold gen_Locate_Closest_Location_empty closestAllGuard
+  by_cases h : l.length = 0 <;> simp [h, G.stops, stop]
+
 /-! ## Lists, units, files -/
 theorem any_eq_stops_of_all {α} (l : List α) (p q : α → Bool) (h : ∀ a, p a = !q a) :
     l.any p = (if l.all q then pass else stop).stops := by
